@@ -702,8 +702,35 @@ fn judge_let(src: &mut Src, st: &mut Stats) -> CheckResult {
     Ok(())
 }
 
+/// Clause lists whose verdict depends on how literals are spelt, which the pattern generator
+/// (it prints canonical numbers) cannot produce: (source, must be reported redundant).
+const SPELLINGS: &[(&str, bool)] = &[
+    ("pub fn f(n: Int) -> Int {\n  when n is {\n    0 -> 1\n    -0 -> 2\n    _ -> 3\n  }\n}\n", true),
+    ("pub fn f(n: Int) -> Int {\n  when n is {\n    1_000 -> 1\n    01_000 -> 2\n    _ -> 3\n  }\n}\n", true),
+    ("pub fn f(n: Int) -> Int {\n  when n is {\n    1_000 -> 1\n    1000 -> 2\n    _ -> 3\n  }\n}\n", true),
+    ("pub fn f(n: Int) -> Int {\n  when n is {\n    0x10 -> 1\n    16 -> 2\n    _ -> 3\n  }\n}\n", true),
+    ("pub fn f(n: Int) -> Int {\n  when n is {\n    10 -> 1\n    -10 -> 2\n    _ -> 3\n  }\n}\n", false),
+    ("pub fn f(n: Int) -> Int {\n  when n is {\n    18446744073709551616 -> 1\n    36893488147419103232 -> 2\n    _ -> 3\n  }\n}\n", false),
+];
+
+fn judge_spelling(source: &str, redundant: bool, st: &mut Stats) -> CheckResult {
+    st.eval();
+    let input = json!({"source": source});
+    let verdict = no_panic(|| check_types(source)).map_err(|p| panic_failure("type-checker", p, input.clone()))?;
+    match (&verdict, redundant) {
+        (Err(TypeError::RedundantMatchClause { .. }), true) | (Ok(()), false) => Ok(()),
+        (Ok(()), true) => Err(Failure::new("accepted-with-unreachable-clause:literal-spelling", json!({"input": input}))),
+        (Err(e), _) => Err(Failure::new("literal-spelling-verdict-unexpected", json!({"input": input, "checker": format!("{e:?}").chars().take(200).collect::<String>(), "second_clause_unreachable": redundant}))),
+    }
+}
+
 pub fn run(cx: &mut Cx) -> String {
     let tier = cx.tier;
+    if !cx.is_replay() && cx.worker == 0 {
+        for (source, redundant) in SPELLINGS {
+            cx.direct("literal-spellings", &json!({"source": source}), |st| judge_spelling(source, *redundant, st));
+        }
+    }
     cx.shrink_iters = 300;
     cx.prop("clause-lists", tier.of(40_000, 1_000_000), 400, judge_matrix);
     cx.prop("let-patterns", tier.of(30_000, 600_000), 200, judge_let);
